@@ -264,6 +264,8 @@ def unlocked(ctx, rid="C16.unlocked"):
                     key = la.key_of_expr(o)
                     v = la.state_at(f.pos_of(st)).get(key) if f.pos_of(st) else None
                     if op_ and op_.startswith("&l:") and (v is None or v.mutex == LOCK or v.mutex is None):
+                        if common.runs_only_when_not_unwinding(f, st):
+                            continue        # the guard stays unlocked when its scope is left by an exception
                         relockers[op_[1:]] = st
         for c in cbs:
             cp = f.pos_of(c)
